@@ -262,6 +262,20 @@ def call_obligation(ctx, rep, world, pr, p, b, bi, t, info, n_site, r32_sinks):
         lo_, hi_, n_ = info["const_range"]
         rep.ok("range-index", p, "%s#%d" % (short, seq), "constant range %d..%d within [u8; %d]" % (lo_, hi_, n_), b.loc(bi))
         return
+    # ---- `s[i..]` on the text being validated, at the position of the byte just refused: C13's
+    # byte-traversal rules decide that i is the position of an existing byte and that every
+    # byte before it was accepted ASCII (so i is a character boundary)
+    if short == "index" and name.endswith("for str>::index") and p == "normalized_string::NormalizedString::new::inner" and len(args) == 2 and strip(args[0]) == ("param", 1):
+        rg = strip(args[1])
+        if rg[0] == "agg" and rg[2] == "std::ops::RangeFrom":
+            from framework import Report
+            from rules import c13
+            r13 = Report("C13", ctx.cfg)
+            c13.check(ctx, r13)
+            bad13 = [o for o in r13.obs if o.status != "ok" and o.rule in ("char-set", "first-offender", "length-gate", "normal-form")]
+            bytes_mode = any(o.rule == "first-offender" and "byte" in (o.detail or "") for o in r13.obs if o.status == "ok") or any("s[i..]" in (getattr(o, "detail", "") or "") for o in r13.obs)
+            rep.check(not bad13 and bytes_mode, "range-index", p, "%s#%d" % (short, seq), "s[i..] at the refused byte: a character boundary inside the text (C13 byte-traversal rules hold)", "str slice start is not provably a character boundary within the text: %s" % (bad13[0].key if bad13 else "not the byte-traversal form"), b.loc(bi))
+            return
     # ---- range indexing
     if short in ("index", "index_mut") and len(args) == 2:
         rng = strip(args[1])
